@@ -384,3 +384,30 @@ fn proto_choice() {
     assert_eq!(HttpProtocol::Http1.version(), http::Version::HTTP_11);
     assert_eq!(HttpProtocol::Http2.version(), http::Version::HTTP_2);
 }
+
+/// host.port_unless_default / host.secure_scheme (unit hostport) + A.host.value [C13]: on an HTTP/1 connection the
+/// Host header equals the URI host plus the port unless it is the scheme's default; a Host supplied by the caller wins.
+/// Sweep: 5 schemes x 4 hosts x 6 ports.
+#[test]
+fn host_value_sweep() {
+    use tower::Layer;
+    for scheme in ["http", "https", "ws", "wss", "ftp"] {
+        for host in ["example.com", "127.0.0.1", "[::1]", "a_b.example"] {
+            for port in [None, Some(80u16), Some(443), Some(8080), Some(8443), Some(1)] {
+                let uri = match port { Some(p) => format!("{scheme}://{host}:{p}/x?y=1"), None => format!("{scheme}://{host}/x?y=1") };
+                let secure = scheme == "https" || scheme == "wss";
+                let default = matches!((port, secure), (Some(443), true) | (Some(80), false));
+                let expected = match port { Some(p) if !default => format!("{host}:{p}"), _ => host.to_string() };
+                let req = request(http::Method::GET, &uri, http::Version::HTTP_11);
+                let out = SetHostHeaderLayer::new().layer(EchoPlain).call(req).now_or_never().unwrap().unwrap();
+                assert_eq!(out.headers().get(http::header::HOST).map(|v| v.to_str().unwrap().to_string()), Some(expected.clone()), "{uri}");
+                // caller-supplied Host is not overridden
+                let mut req = request(http::Method::GET, &uri, http::Version::HTTP_11);
+                req.headers_mut().insert(http::header::HOST, "caller.example".parse().unwrap());
+                let out = SetHostHeaderLayer::new().layer(EchoPlain).call(req).now_or_never().unwrap().unwrap();
+                assert_eq!(out.headers().get(http::header::HOST).unwrap(), "caller.example", "{uri}: caller's Host overridden");
+                assert_eq!(out.headers().get_all(http::header::HOST).iter().count(), 1);
+            }
+        }
+    }
+}
